@@ -111,7 +111,7 @@ def run(prop, tier, seed):
     rep = vlib.Report(prop, tier, seed, "translation_validation")
     wd = vlib.workdir(prop)
     cases, states, tlc_wall = [], {}, {}
-    for fam in ("imp", "scope"):
+    for fam in ("imp", "timp", "scope"):
         cs, st, wall = enumerate_family(prop, fam, tier, seed)
         if not cs:
             raise vlib.ToolError("family %s: TLC produced no cases" % fam)
@@ -136,7 +136,7 @@ def run(prop, tier, seed):
     kinds = collections.Counter()
     for c in full:
         l = c["layout"]
-        if l["fam"] == "imp":
+        if l["fam"] in ("imp", "timp"):
             for f in (l["f1"], l["f2"], l["f12"]):
                 forms[f["form"] + ("1" if len(f["names"]) == 1 else "N" if f["names"] else "")] += 1
         else:
